@@ -602,7 +602,7 @@ fn check_cmd(args: &[String]) -> i32 {
   if thorough { wa.push("--thorough".into()); }
   let mut spec = CheckSpec {
     property: "C20".into(), world: "W4".into(), tier: tier.clone(), seed, level: "exploration".into(),
-    rule: format!("W4 include world: the real mech::read_mech_source_file over a directory tree built per run on tmpfs (private directory, one thread, removed afterwards) against a reference textual expander over the in-memory description of the same tree. Trees: 1-4 .mec files in up to 3 directories (root, child, grandchild, sibling), every ordered pair an include edge with probability 1/3 (self-loops 1/12, repeats), so chains, diamonds, repeated includes, self-includes and cycles of every length arise; relative spellings with `..` and `./`; include lines with leading/trailing spaces and tabs and inner padding; brace lines that are not includes; include tokens embedded in longer lines; backtick and tilde fences of length 3-5 indented 0-3 spaces with and without info strings, include-looking lines inside fences, false closers (shorter, other marker, trailing text), unclosed fences, a four-space non-fence; files with and without a final newline. Faults as real file-system objects: missing targets, a directory named like the target, invalid UTF-8, dangling symlink, symlink alias of another file of the graph, symlink loop; and as history an editor actor that rewrites, re-links or removes files between up to three loads of the same root. {} A run is non-trivial if at least one load expanded text; distinct = digest over tree contents and load outcomes.", if thorough { "Thorough tier: runs 0..2047 walk all 2^9 edge subsets over three files crossed with four include-line/fence placements; the rest is seeded." } else { "" }),
+    rule: format!("W4 include world: the real mech::read_mech_source_file over a directory tree built per run on tmpfs (private directory, one thread, removed afterwards) against a reference textual expander over the in-memory description of the same tree. Trees: 1-4 .mec files in up to 3 directories (root, child, grandchild, sibling), every ordered pair an include edge with probability 1/3 (self-loops 1/12, repeats), so chains, diamonds, repeated includes, self-includes and cycles of every length arise; relative spellings with `..` and `./`; include lines with leading/trailing spaces and tabs and inner padding; brace lines that are not includes; lines with several brace expressions (`{{1+1}} and {{b.mec}}`, `{{a.mec}}{{b.mec}}`: not stand-alone includes); include tokens embedded in longer lines; include lines before, after and inside fences (the reference decides from the text which they are); backtick and tilde fences of length 3-5 indented 0-3 spaces with and without info strings, include-looking lines inside fences, false closers (shorter, other marker, trailing text), unclosed fences, a four-space non-fence; files with and without a final newline. Faults as real file-system objects: missing targets, a directory named like the target, invalid UTF-8, dangling symlink, symlink alias of another file of the graph, symlink loop; and as history an editor actor that rewrites, re-links or removes files between up to three loads of the same root. {} A run is non-trivial if at least one load expanded text; distinct = digest over tree contents and load outcomes.", if thorough { "Thorough tier: runs 0..2047 walk all 2^9 edge subsets over three files crossed with four include-line/fence placements; the rest is seeded." } else { "" }),
     worker_args: wa,
     runs: if thorough { 2048 + 20_000_000 } else { 1_500_000 },
     budget: Duration::from_secs(if thorough { 420 } else { 40 }),
